@@ -74,7 +74,8 @@ def rawStep (bs : Bytes) : Option (Raw × Bytes) :=
   | none => none
   | some (x, r) =>
     let num := x / 8
-    match x % 8 with
+    if num = 0 then none      -- "illegal tag 0"
+    else match x % 8 with
     | 0 => match getVarint r with
       | none => none
       | some (v, r2) => some (.vint num v, r2)
